@@ -303,8 +303,12 @@ func (m Message) GetMetaSeqData(bt *[]byte) bool {
 	}
 
 	if bt != nil {
-		data := m.metaDataWithoutVarlength()
-		*bt = data
+		// the length is a variable length quantity: from 128 bytes of data on it takes more than one byte
+		i := 2
+		for i < len(m)-1 && m[i]&0x80 != 0 {
+			i++
+		}
+		*bt = m[i+1:]
 	}
 	return true
 }
